@@ -17,6 +17,7 @@ import (
 	"time"
 
 	"github.com/0xReLogic/Helios/internal/config"
+	"github.com/0xReLogic/Helios/internal/loadbalancer"
 	vh "github.com/0xReLogic/Helios/internal/verifh"
 	"github.com/0xReLogic/Helios/internal/vhook"
 )
@@ -543,6 +544,82 @@ func init() {
 					break
 				}
 				o.Sample(map[string]any{"part": "lock-interleavings", "case": c, "interleavings": len(traces), "one_trace": one})
+			}
+		})
+}
+
+// ---- Stop arriving while the probe loop is handing out the probes of one tick and an earlier probe is still in
+// flight (forced through the hook before WaitGroup.Add), under the race detector: the shutdown's wait and the
+// loop's bookkeeping must be ordered
+func init() {
+	type c12Stop struct {
+		Strategy string `json:"strategy"`
+		At       int    `json:"stop_at_probe"` // Stop is started when the loop is about to hand out this probe of a tick
+		Round    int    `json:"round"`
+	}
+	vh.AddPart("C12", "stop-during-fanout", "race", vh.Opts{Procs: 8, TimeoutS: 300},
+		func(e *vh.Env) []c12Stop {
+			var cs []c12Stop
+			for i, st := range allStrategies {
+				for at := 1; at <= 3; at++ {
+					for r := 0; r < e.Pick(1, 4); r++ {
+						cs = append(cs, c12Stop{st, at, r + i})
+					}
+				}
+			}
+			return cs
+		},
+		func(e *vh.Env, c c12Stop, o *vh.Out) {
+			o.Need("stops_during_fanout")
+			bes := newBackends(3)
+			defer closeBackends(bes)
+			for _, b := range bes {
+				b.SetProbe(200, 150*time.Millisecond) // probes stay in flight for a while
+			}
+			cfg := baseConfig(c.Strategy, bes)
+			cfg.HealthChecks.Active = config.ActiveHealthCheckConfig{Enabled: true, Interval: 1, Timeout: 0, Path: "/health"}
+			cfg.HealthChecks.Active.Interval, cfg.HealthChecks.Active.Timeout = 2, 1
+			var calls atomic.Int64
+			stopped := make(chan struct{})
+			var once sync.Once
+			var lbp atomic.Pointer[loadbalancer.LoadBalancer]
+			vhook.Set(func(pt string) {
+				if pt != "lb.probe.add" {
+					return
+				}
+				n := calls.Add(1)
+				// the first tick (3 probes) passes; on the second tick Stop is started at the chosen probe
+				if n == int64(3+c.At) {
+					once.Do(func() {
+						go func() {
+							if lb := lbp.Load(); lb != nil {
+								lb.Stop()
+							}
+							close(stopped)
+						}()
+					})
+					time.Sleep(30 * time.Millisecond)
+				}
+			})
+			defer vhook.Set(nil)
+			sys, err := startSys(cfg, bes, false)
+			if err != nil {
+				o.Inconcl("startSys: %v", err)
+				return
+			}
+			lbp.Store(sys.LB)
+			select {
+			case <-stopped:
+				o.Obs("stops_during_fanout", 1)
+			case <-time.After(20 * time.Second):
+				o.Inconcl("the probe loop did not reach its second tick within 20 s (case %s)", vh.J(c))
+			}
+			time.Sleep(300 * time.Millisecond)
+			sys.Close()
+			o.Eval(1)
+			o.Distinct(vh.J(c))
+			if c.At == 2 && c.Round == 0 {
+				o.Sample(map[string]any{"part": "stop-during-fanout", "case": c, "hook_calls": calls.Load()})
 			}
 		})
 }
